@@ -264,6 +264,8 @@ rt_cb_read(const RegisterArea *a, RegisterAtom *dst, RegisterOffset off, Registe
         return rv;
     }
     rt_nest_access();
+    if (a->mem != NULL)
+        memset(a->mem, 0x7e, sizeof(RegisterAtom) * a->size); /* the driver's bounce buffer */
     memcpy(dst, rt_cur->store[idx] + off, n * sizeof(RegisterAtom));
     return rv;
 }
@@ -287,6 +289,8 @@ rt_cb_write(RegisterArea *a, const RegisterAtom *src, RegisterOffset off, Regist
         rt_cb_fail_hits++;
         return rv;
     }
+    if (a->mem != NULL)
+        memset(a->mem, 0x7e, sizeof(RegisterAtom) * a->size);
     memcpy(rt_cur->store[idx] + off, src, n * sizeof(RegisterAtom));
     return rv;
 }
@@ -382,6 +386,14 @@ rt_build(struct rt_inst *in, const struct rt_desc *d)
             ra->read = a->window ? NULL : rt_cb_read;
             ra->write = a->has_write ? rt_cb_write : NULL;
             ra->mem = NULL;
+            /* every second callback-backed area written field by field carries a memory pointer of its own as well
+             * (a bounce buffer the driver scribbles over in its callbacks): the words of such an area are what the
+             * callbacks say, never what that memory holds */
+            if (!a->window && ((rt_build_toggle + (unsigned)i + vh_unit_salt / 2) & 1u)) {
+                ra->mem = vh_arena(sizeof(RegisterAtom) * a->size);
+                memset(ra->mem, 0x7e, sizeof(RegisterAtom) * a->size);
+                VH_COUNT("callback-backed area with a memory pointer of its own");
+            }
         } else {
             ra->read = reg_mem_read;
             ra->write = reg_mem_write;
